@@ -30,6 +30,7 @@ import (
 //   co/<n> cc/<n> coordinator connection n opened / closed   bo/<n> bc/<n> broker connection n dialled / closed by the client
 //   fq  Fetch request reached the broker
 //   lk/<n> library goroutines still alive at the end   oc/<n> connections still open at the end
+//   to/<c> call c had to return (its context was cancelled, or Close had returned) and was still blocked after the watchdog bound
 // ---------------------------------------------------------------------------------------------------------------
 
 type countedConn struct {
@@ -453,7 +454,8 @@ func (s *rscenario) wait(c int, d time.Duration) bool {
 		return true
 	case <-time.After(d):
 		if d >= watchdog() {
-			noteStuck() // waited the full watchdog bound: the call is blocked; later scenarios use the short bounds
+			noteStuck()            // waited the full watchdog bound: the call is blocked; later scenarios use the short bounds
+			s.rec.add("to/%d", c) // every wait with that bound is for a call that has to return (cancelled, or after Close)
 		}
 		return false
 	}
@@ -708,7 +710,7 @@ func readerScenario(kind int, r *rand.Rand) (string, string) {
 		jitter()
 		var cm int
 		if s.cfg.nmsgs > 0 {
-			s.wait(c, watchdog())
+			s.wait(c, 400*time.Millisecond) // a probe: after a failed join (back-off) or a fault no message may ever arrive
 			cm = s.call("commit")
 			if r.Intn(2) == 0 {
 				time.Sleep(time.Millisecond)
